@@ -300,11 +300,11 @@ func H_C16_strlit() {
 }
 
 
-var c16Pool = []string{"0", "00", "007", "0017", "00017", "010", "0.50", "00.5", "1e2", "1E+2", "1e-2", "0e0", "12.", ".5", "5.e1", "0x10", "0XfF", "0x0a", " 12 ", "\t7\n", "1.5e3", "123456789", "1e10", "3.25", "100", "0.125"}
+var c16Pool = []string{"0", "00", "007", "0017", "00017", "010", "0.50", "00.5", "1e2", "1E+2", "1e-2", "0e0", "12.", ".5", "5.e1", "0x10", "0XfF", "0x0a", "0xe", "0xFE", "0x1e2", "0xBEEF", "0Xe0", " 12 ", "\t7\n", "1.5e3", "123456789", "1e10", "3.25", "100", "0.125"}
 
 // C16.pool — longer numeral spellings: the lexer, tonumber and coercion agree with R-num.
 //
-//verif:harness prop=C16 tier=quick bounds="26 concrete numeral spellings (leading zeros, fraction/exponent forms, hexadecimal, surrounding blanks); readers compared pairwise and with R-num"
+//verif:harness prop=C16 tier=quick bounds="31 concrete numeral spellings (leading zeros, fraction/exponent forms, hexadecimal, surrounding blanks); readers compared pairwise and with R-num"
 func H_C16_pool() {
 	s := c16Pool[VChoice(len(c16Pool))]
 	ok, val, cat := refNumeral(s)
@@ -328,5 +328,50 @@ func H_C16_pool() {
 		VAssert(loadRun(L, "return "+s, 1) == nil, "pool: literal loads: "+s)
 		VAssert(sameValue(L.Get(-1), LNumber(val)), "pool: literal value of "+s)
 	}
+	VReach("end")
+}
+
+
+var c16Values = []float64{0, 1, -1, 7, 123, -456, 1e15, 999999999999999, 1125899906842624, 9007199254740991, -9007199254740991, 4503599627370496, 0.5, -0.25, 3.25, 1e100, 1.5e-7, 123456.789, 2.5e15 + 0.5}
+
+// C16.tostring — tonumber(tostring(x)) == x, and integral values below 2^53 print without exponent
+// or fraction, on a concrete pool (number formatting runs through Go's fmt/strconv natively; the
+// values are not symbolic here — stated as such).
+//
+//verif:harness prop=C16 tier=quick bounds="19 concrete numbers incl. 16-digit integers up to 2^53-1; tostring spelling of integers and the tonumber round trip through the real library; NOT symbolic in the number (fmt/strconv are outside solver reach)"
+func H_C16_tostring() {
+	x := c16Values[VChoice(len(c16Values))]
+	L := newL(Options{}, BaseLibName)
+	out, err := callLib(L, "_G", "tostring", 1, LNumber(x))
+	VAssert(err == nil, "tostring: no error")
+	s, ok := out[0].(LString)
+	VAssert(ok, "tostring: string result")
+	integral := x == float64(int64(x)) && x < 9007199254740992 && x > -9007199254740992
+	if integral {
+		plain := len(s) > 0
+		for i := 0; i < len(s); i++ {
+			c := s[i]
+			if !(isDig(c) || (i == 0 && c == '-')) {
+				plain = false
+			}
+		}
+		VAssert(plain, "tostring: an integral value below 2^53 prints without exponent or fraction")
+	}
+	// round trip (tonumber only accepts an exponent when the text has a dot: open finding F13)
+	hasExp, hasDot := false, false
+	for i := 0; i < len(s); i++ {
+		if s[i] == 'e' || s[i] == 'E' {
+			hasExp = true
+		}
+		if s[i] == '.' {
+			hasDot = true
+		}
+	}
+	if !hasExp || hasDot {
+		back, err := callLib(L, "_G", "tonumber", 1, s)
+		VAssert(err == nil && sameValue(back[0], LNumber(x)), "tostring: tonumber(tostring(x)) == x")
+	}
+	pn, perr := parseNumber(string(s))
+	VAssert(perr == nil && float64(pn) == x, "tostring: the coercion of tostring(x) is x")
 	VReach("end")
 }
